@@ -45,8 +45,10 @@ type WalkCfg struct {
 	PerType   map[reflect.Type]map[string]string // rule sets registered for specific struct types
 	CallFns   map[string]bool                    // rule names defined for this call
 	GlobalFns map[string]bool                    // globally registered rule names
-	Env       *Env
-	RePats    map[string]string // rule item text -> the generator's own pattern
+	// GlobalLevel: name -> the word the function registered LAST under that name prints ("" = "global")
+	GlobalLevel map[string]string
+	Env         *Env
+	RePats      map[string]string // rule item text -> the generator's own pattern
 }
 
 // Result of a walk.
@@ -262,6 +264,9 @@ func (w *walker) object(path string, v reflect.Value, outermost bool, depth int)
 			case w.cfg.GlobalFns[key]:
 				if !fv.IsZero() {
 					e.Kind, e.Msg = "value", "custom global "+key
+					if lv := w.cfg.GlobalLevel[key]; lv != "" {
+						e.Msg = "custom " + lv + " " + key
+					}
 					SetEcho(&e, fv)
 					seq = append(seq, Item{C: &e})
 					w.viol(first)
